@@ -115,6 +115,33 @@ CHECKS = {
         note="Memory(kind, p) comes from the specification (TaDim); ratios with a condition number above 1e6 are skipped and counted.",
         technique=TECH + "window-as-state reference; real whole-history vs bare-suffix comparison on every replayed behaviour",
         ref="6 (C17)"),
+    "C11": dict(
+        text="Ctor.tla states the constructor contract as tables (Err(InvalidParameter) iff some period argument is 0, Display text, period(), multiplier(), the documented "
+             "defaults) and TLC enumerates every constructor call as an initial state: single periods 0..4096, all tuples over 0..24 for multi-period kinds, the boundary "
+             "tokens 2^31, 2^32, 2^53+1, usize::MAX-1, usize::MAX in every position for the kinds that allocate no window, eight multipliers incl. 0, negative, -0.0 and "
+             "NaN; every case is executed against the real constructor under catch_unwind, accessors and Display are compared after construction and again after "
+             "next/reset/next, and Default::default() is compared bit by bit with new(documented defaults) on a 30-step stream.",
+        note="Windowed kinds are constructed with periods up to 4096 only; the quick tier samples every 7th single period beyond 64 and tuples over 0..9.",
+        technique="TLA+ tables of the constructor contract (Ctor.tla) enumerated exhaustively by TLC; every case replayed against the real constructors, accessors, Display and Default",
+        ref="6 (C11)"),
+    "C13": dict(
+        text="Streams.tla gives long streams intensionally (segments = pattern x repetitions) and, because the reference state of a windowed kind is its window, states "
+             "the exact expected output at any step t in closed form; TLC evaluates it at ~70 sampled steps (regime switches, multiples of 65536, log-uniform, the end) of "
+             "seeded schedules of 2*10^5 (quick) / 2*10^6 (thorough) inputs mixing repeated random-walk patterns, alternating extremes, spikes, plateaus and saw-tooths; "
+             "the harness expands each schedule into real calls at every price unit for SMA, WMA, SD, BB, MAD, CCI, MFI, MIN, MAX, compares at the sampled steps and checks "
+             "at every step that the variance-based outputs are never NaN or negative.",
+        note="Three-decade bands are run with periods <= 40 and periods up to 1000 with 46 price levels (32-bit exact arithmetic); expansion of the schedule is cross-checked "
+             "against the spec's StreamAt at every sampled step.",
+        technique="TLA+ intensional stream specification (Streams.tla over TaRef) evaluated by TLC at sampled steps; real runs of up to 2*10^6 calls compared there",
+        ref="6 (C13)"),
+    "C16": dict(
+        text="DataItem.tla models the builder as five slots with last-call-wins setters and IEEE ordering on a ten-point float lattice; TLC explores it completely "
+             "(all 11^5 = 161 051 slot states, invariants NaNRejected and LastWins) and prints one setter path per state plus every transition of a sub-lattice (a "
+             "seeded sample of the 8 million transitions of the full lattice in the thorough tier) and finite integer tuples; each behaviour is executed against the "
+             "real builder: build() result, getters bit-exact, clone equality, bincode round trip, and the fields an indicator reads from the item.",
+        note="The lattice {-inf,-2,-1,-0.0,0.0,1,2,3,+inf,NaN} stands for all floats (every order type of four prices, every sign class of volume).",
+        technique="TLA+ builder state machine (DataItem.tla) explored exhaustively by TLC; one behaviour per state / transition replayed against the real builder",
+        ref="6 (C16)"),
 }
 
 NOT_APPLICABLE = {
